@@ -48,6 +48,8 @@ impl MemoryStore {
         // the freshly inserted (still empty) value
         let mut data = data.write();
         drop(data_map);
+        #[cfg(zarrs_verif)]
+        crate::verif_hooks::emit("mem.set.write", &[]);
 
         if offset == 0 && data.is_empty() {
             // fast path
